@@ -7,6 +7,7 @@ import SymfcModel.Lemmas.Chunk
 import SymfcModel.Lemmas.LinAlg
 import SymfcModel.Lemmas.Coset
 import SymfcModel.Lemmas.GroupAvg
+import SymfcModel.Lemmas.Corollaries
 namespace Symfc.C02
 open Symfc
 
@@ -107,5 +108,25 @@ theorem compressed_projector_unit_eigenvectors [DecidableEq m] [DecidableEq k] (
   LinAlg.compressed_projector_unit_iff C hC P hPs hPi v
 
 end L3
+
+section Capstone
+open Matrix GroupAvg
+variable {K : Type*} [Field K] [LinearOrder K] [IsStrictOrderedRing K]
+variable {H : Type*} [Group H] [Fintype H] {n k k₂ k₃ : Type*} [Fintype n] [DecidableEq n] [Fintype k] [DecidableEq k]
+  [Fintype k₂] [DecidableEq k₂] [Fintype k₃]
+
+/-- C02, capstone (K2): EVERY tensor `x = B c` expanded in the returned basis `B = A W₂ W₃` is invariant under EVERY
+    operation. Symbols: `ρ h` = the orthogonal matrix by which operation `h` of the finite group of coset
+    representatives (unique rotations) acts on class space (induced permutation of classes ⊗ R_h^{⊗n}); the coset
+    projector is `avg ρ = (1/|H|) Σ_h ρ h` — symmetric and idempotent by `group_average_is_the_projector_onto_invariants`,
+    not assumed; `A` = `c_pt` (orthonormal columns, `hA`; for the indicator matrix this is `LinAlg.indicator_orthonormal`);
+    `W₂` = `c_rpt` = `eigsh_projector(Aᵀ P A)` under the eigen contract `EigBasis`; `W₃` (`eigvecs`) may be ANY matrix. -/
+theorem every_basis_vector_is_invariant_under_every_operation {ρ : H → Matrix n n K} (hρ : OrthRep ρ)
+    (A : Matrix n k K) (hA : Aᵀ * A = 1) (W₂ : Matrix k k₂ K) (W₃ : Matrix k₂ k₃ K)
+    (h₂ : Pipeline.EigBasis (Aᵀ * avg ρ * A) W₂) (c : k₃ → K) :
+    ∀ h, ρ h *ᵥ ((A * W₂ * W₃) *ᵥ c) = (A * W₂ * W₃) *ᵥ c :=
+  Corollaries.basis_vectors_are_invariant_under_the_group hρ A hA W₂ W₃ h₂ c
+
+end Capstone
 
 end Symfc.C02
